@@ -20,7 +20,7 @@ func init() {
 	register(&Rule{Name: "SCOPE.GROUPWALK", Props: []string{"C06"}, Floor: 1,
 		Doc: "the grouping lookup walks the ancestors of the node it is given, nearest first: its cursor is only ever the parameter or the cursor's ParentNode()",
 		Run: ruleScopeGroupWalk})
-	register(&Rule{Name: "ID.CLOSURE", Props: []string{"C11"}, Floor: 1,
+	register(&Rule{Name: "ID.CLOSURE", Props: []string{"C11", "C05"}, Floor: 1,
 		Doc: "the value list finally stored on an identity is the result of the de-duplicating closure walk, never the accumulated direct-children list itself",
 		Run: ruleIDClosure})
 	register(&Rule{Name: "SCOPE.PREFIXCTX", Props: []string{"C11", "C09", "C06", "C13"}, Floor: 3,
@@ -556,7 +556,7 @@ func ruleScopePrefixCtx(c *Ctx) []Obligation {
 // ---------------------------------------------------------------- LEX.TCOL
 
 func init() {
-	register(&Rule{Name: "LEX.TCOL", Props: []string{"C02"}, Floor: 3,
+	register(&Rule{Name: "LEX.TCOL", Props: []string{"C02", "C16"}, Floor: 3,
 		Doc: "the tab-expanded column that indentation stripping is measured against moves with the character column: every lexer function that advances or resets col also advances or resets tcol",
 		Run: ruleLexTcol})
 }
@@ -950,7 +950,7 @@ func ruleFlagImplies(c *Ctx) []Obligation {
 // ---------------------------------------------------------------- DEV.ORDER
 
 func init() {
-	register(&Rule{Name: "DEV.ORDER", Props: []string{"C08", "C05"}, Floor: 1,
+	register(&Rule{Name: "DEV.ORDER", Props: []string{"C08", "C05", "C01"}, Floor: 1,
 		Doc: "the deviate statements of a deviation are handed to the applier in written order: the ordered list is appended to inside the walk over the deviation's AST list of deviate statements, one entry per statement",
 		Run: ruleDevOrder})
 }
